@@ -26,7 +26,17 @@ def run_controlled(fn, world):
     return out, ctrl
 
 
+SAMPLES = []
+
+
 def rand_world(rnd, n, setup_p=0.0, debug_p=0.0, fail_p=0.0, tags=False, maxc=2):
+    w = _rand_world(rnd, n, setup_p, debug_p, fail_p, tags, maxc)
+    if len(SAMPLES) < 2:
+        SAMPLES.append(w.describe())
+    return w
+
+
+def _rand_world(rnd, n, setup_p=0.0, debug_p=0.0, fail_p=0.0, tags=False, maxc=2):
     es = rnd.choice(list(shapes(n)))
     nodes = []
     for i in range(n):
